@@ -25,6 +25,22 @@ def scratch_copy():
 
 
 def apply(d, m):
+    if "edits" in m:
+        # several (file, old, new[, count]) replacements making up one change
+        import re
+        for e in m["edits"]:
+            if len(e) > 3 and e[3] == "re":
+                pth = os.path.join(d, e[0])
+                txt = open(pth).read()
+                txt2, n = re.subn(e[1], e[2], txt)
+                if n == 0:
+                    return f"regex {e[1]!r} matches nothing in {e[0]} (the catalogue entry is stale)"
+                open(pth, "w").write(txt2)
+                continue
+            err = apply(d, {"file": e[0], "old": e[1], "new": e[2], "count": e[3] if len(e) > 3 else 1, "all": True})
+            if err:
+                return err
+        return None
     p = os.path.join(d, m["file"])
     with open(p) as fh:
         s = fh.read()
